@@ -150,3 +150,123 @@ def hpath_json(p):
 
 def style_json(st):
     return {"matcher": matcher_json(st.document_matcher), "path": hpath_json(st.html_path)}
+
+
+# ---------------------------------------------------------------- document elements
+def img_src(image):
+    src = getattr(image, "_verif_src", None)
+    if src is None:
+        raise TypeError("image without _verif_src")
+    if src[0] == "data":
+        return "(ImgData %s)" % lst(n, src[1])
+    return "(ImgError %s)" % s(src[1])
+
+
+def delem(e):
+    from mammoth import documents as D
+    if isinstance(e, D.Paragraph):
+        return "(DParagraph %s %s %s %s)" % (lst(delem, e.children), opt(s, e.style_id), opt(s, e.style_name),
+                                            opt(level, e.numbering))
+    if isinstance(e, D.Run):
+        return "(DRun %s %s %s %s %s %s %s %s %s %s %s)" % (
+            lst(delem, e.children), opt(s, e.style_id), opt(s, e.style_name), b(e.is_bold), b(e.is_italic),
+            b(e.is_underline), b(e.is_strikethrough), b(e.is_all_caps), b(e.is_small_caps), s(e.vertical_alignment),
+            opt(s, e.highlight))
+    if isinstance(e, D.Text):
+        return "(DText %s)" % s(e.value)
+    if isinstance(e, D.Hyperlink):
+        if e.anchor is not None:
+            tgt = "(LAnchor %s)" % s(e.anchor)
+        else:
+            tgt = "(LHref %s)" % s(e.href)
+        return "(DHyperlink %s %s %s)" % (lst(delem, e.children), tgt, opt(s, e.target_frame))
+    if isinstance(e, D.Checkbox):
+        return "(DCheckbox %s)" % b(e.checked)
+    if isinstance(e, D.Table):
+        return "(DTable %s %s %s)" % (lst(delem, e.children), opt(s, e.style_id), opt(s, e.style_name))
+    if isinstance(e, D.TableRow):
+        return "(DTableRow %s %s)" % (lst(delem, e.children), b(e.is_header))
+    if isinstance(e, D.TableCell):
+        return "(DTableCell %s %d %d)" % (lst(delem, e.children), e.colspan, e.rowspan)
+    if isinstance(e, D.Break):
+        return "(DBreak %s)" % s(e.break_type)
+    if isinstance(e, D.Tab):
+        return "DTab"
+    if isinstance(e, D.Image):
+        return "(DImage %s %s %s)" % (opt(s, e.alt_text), opt(s, e.content_type), img_src(e))
+    if isinstance(e, D.Bookmark):
+        return "(DBookmark %s)" % s(e.name)
+    if isinstance(e, D.NoteReference):
+        return "(DNoteRef %s %s)" % (s(e.note_type), s(e.note_id))
+    if isinstance(e, D.CommentReference):
+        return "(DCommentRef %s)" % s(e.comment_id)
+    raise TypeError("unknown document element %r" % (e,))
+
+
+def document(d, notes_list):
+    """notes_list: the list the Notes dict was built from (order matters for 'last wins')."""
+    return "(mkDoc %s %s %s)" % (
+        lst(delem, d.children),
+        lst(lambda x: "(mkNote %s %s %s)" % (s(x.note_type), s(x.note_id), lst(delem, x.body)), notes_list),
+        lst(lambda c: "(mkComment %s %s %s %s)" % (s(c.comment_id), lst(delem, c.body), opt(s, c.author_name),
+                                                  opt(s, c.author_initials)), d.comments))
+
+
+def delem_json(e):
+    from mammoth import documents as D
+    name = type(e).__name__
+    out = {"type": name}
+    for f in ("style_id", "style_name", "is_bold", "is_italic", "is_underline", "is_strikethrough", "is_all_caps",
+              "is_small_caps", "vertical_alignment", "highlight", "value", "href", "anchor", "target_frame", "checked",
+              "is_header", "colspan", "rowspan", "break_type", "alt_text", "content_type", "name", "note_type", "note_id",
+              "comment_id"):
+        if hasattr(e, f):
+            out[f] = getattr(e, f)
+    if isinstance(e, D.Paragraph) and e.numbering is not None:
+        out["numbering"] = {"level_index": e.numbering.level_index, "is_ordered": e.numbering.is_ordered}
+    if isinstance(e, D.Image):
+        src = e._verif_src
+        out["src"] = [src[0], list(src[1]) if src[0] == "data" else src[1]]
+    if hasattr(e, "children"):
+        out["children"] = [delem_json(c) for c in e.children]
+    return out
+
+
+def delem_from_json(j):
+    from mammoth import documents as D
+    from . import gen_docs
+    t = j["type"]
+    ch = [delem_from_json(c) for c in j.get("children", [])]
+    if t == "Paragraph":
+        nl = j.get("numbering")
+        return D.paragraph(ch, j["style_id"], j["style_name"],
+                           D.numbering_level(nl["level_index"], nl["is_ordered"]) if nl else None)
+    if t == "Run":
+        return D.run(ch, j["style_id"], j["style_name"], j["is_bold"], j["is_italic"], j["is_underline"],
+                     j["is_strikethrough"], j["is_all_caps"], j["is_small_caps"], j["vertical_alignment"], None, None,
+                     j["highlight"])
+    if t == "Text":
+        return D.text(j["value"])
+    if t == "Hyperlink":
+        return D.hyperlink(ch, j["href"], j["anchor"], j["target_frame"])
+    if t == "Checkbox":
+        return D.checkbox(j["checked"])
+    if t == "Table":
+        return D.table(ch, j["style_id"], j["style_name"])
+    if t == "TableRow":
+        return D.table_row(ch, j["is_header"])
+    if t == "TableCell":
+        return D.table_cell(ch, j["colspan"], j["rowspan"])
+    if t == "Break":
+        return D.Break(j["break_type"])
+    if t == "Tab":
+        return D.tab()
+    if t == "Image":
+        return gen_docs.mk_image(j["alt_text"], j["content_type"], (j["src"][0], bytes(j["src"][1]) if j["src"][0] == "data" else j["src"][1]))
+    if t == "Bookmark":
+        return D.bookmark(j["name"])
+    if t == "NoteReference":
+        return D.note_reference(j["note_type"], j["note_id"])
+    if t == "CommentReference":
+        return D.comment_reference(j["comment_id"])
+    raise TypeError(t)
